@@ -254,6 +254,8 @@ def gen_tree(rng, frag, pool, cfg):
     spec = FRAGS[frag]
     lo, hi = SIZES[cfg.get("size", "s")]
     target = min(rng.randint(lo, hi), len(pool))
+    if frag == "afm":
+        target = max(target, 2)     # AFM cannot express a model that is only a root
     maxdepth = cfg.get("maxdepth", 4)
     order = list(pool)
     rng.shuffle(order)
@@ -459,6 +461,8 @@ def gen_edit(rng, ref, frag, pool, cfg):
             parent["rels"].append({"min": card[0], "max": card[1], "ch": [child]})
             return {"k": "add_leaf", "p": parent["n"], "n": child["n"], "card": card}, new
         if kind == "remove_leaf":
+            if frag == "afm" and len(feats) <= 2:
+                continue
             inctc = []
             for ctc in new["ctcs"]:
                 inctc.extend(rm.expr_names(ctc["e"]))
